@@ -368,8 +368,11 @@ def _(c):
         n = anc_count(h0, s, add_self)
         up = L.upk(h0)
         idx = (lambda i: i + off) if bottom_up else (lambda i: n - 1 - i + off)
+        inv = (lambda m: m - off) if bottom_up else (lambda m: n - 1 - m + off)  # list position of the ancestor at distance m
         return And(fresh_list(x, x.r), unchanged_lists(x), h.llen(x.r) == n,
-                   fa_int(0, n, lambda i: h.litem(x.r, i) == up(s, idx(i)), lambda i: h.litem(x.r, i)))
+                   fa_int(0, n, lambda i: And(h.litem(x.r, i) == up(s, idx(i)), h0.mem(x.T, h.litem(x.r, i)), h0.rank(h.litem(x.r, i)) == h0.rank(s) - idx(i)), lambda i: h.litem(x.r, i)),
+                   # the same, read from the spec side: the ancestor at distance m sits at position inv(m)
+                   fa_int(off, h0.rank(s), lambda m: h.litem(x.r, inv(m)) == up(s, m), lambda m: up(s, m), name="m"))
 
     c.ensures("result == [self,] parent, grandparent, ... (top level last), reversed unless bottom_up; the root is never included", post)
     lp = c.loop(1)
@@ -381,10 +384,42 @@ def _(c):
         up = L.upk(h0)
         res, par = x.v.res, x.v.parent
         return And(x.g.j >= 0, res != LNONE, Not(h0.lalloc(res)), h.lalloc(res), h.llen(res) == x.g.j, par == up(s, x.g.j + off), up(s, 0) == s,
-                   Or(par == NONE, And(h0.inP(x.T, par), h0.rank(par) == h0.rank(s) - (x.g.j + off))),
-                   Implies(par == NONE, h0.rank(s) == x.g.j + off - 1) if False else True,
-                   fa_int(0, x.g.j, lambda i: h.litem(res, i) == up(s, i + off), lambda i: h.litem(res, i)),
+                   par != NONE, h0.inP(x.T, par), h0.rank(par) == h0.rank(s) - (x.g.j + off),
+                   fa_int(0, x.g.j, lambda i: And(h.litem(res, i) == up(s, i + off), h0.mem(x.T, h.litem(res, i)), h0.rank(h.litem(res, i)) == h0.rank(s) - (i + off)), lambda i: h.litem(res, i)),
+                   fa_int(off, x.g.j + off, lambda m: h.litem(res, m - off) == up(s, m), lambda m: up(s, m), name="m"),
                    unchanged_lists(x))
 
     lp.invariant = inv
     lp.modifies = ("llen", "litem")
+
+
+@contract(NQ + "get_common_ancestor", props=C10)
+def _(c):
+    c.param("self", "node").param("other", "node")
+    c.result_tag = "any"
+    c.modifies("llen", "litem", "lalloc")
+    member_pre(c)
+    c.requires("other is a node of the same tree", lambda x: x.h0.mem(x.T, x.a.other))
+
+    def disjoint_upto(x, k):
+        """no ancestor-or-self of self at distance < k is an ancestor-or-self of other"""
+        h0, s, o = x.h0, x.a.self, x.a.other
+        up = L.upk(h0)
+        i, m = L.fresh("i", L.I), L.fresh("m", L.I)
+        return ForAll([i, m], Implies(And(0 <= i, i < k, i < h0.rank(s), 0 <= m, m < h0.rank(o)), up(s, i) != up(o, m)), patterns=[z3.MultiPattern(up(s, i), up(o, m))])
+
+    def post(x):
+        h0, s, o = x.h0, x.a.self, x.a.other
+        up = L.upk(h0)
+        if x.res.tag == "none":
+            return disjoint_upto(x, h0.rank(s))
+        r = x.r
+        return And(h0.mem(x.T, r), h0.rank(r) >= 1, h0.rank(r) <= h0.rank(s), h0.rank(r) <= h0.rank(o),
+                   up(s, h0.rank(s) - h0.rank(r)) == r, up(o, h0.rank(o) - h0.rank(r)) == r,
+                   disjoint_upto(x, h0.rank(s) - h0.rank(r)))
+
+    c.ensures("result is an ancestor-or-self of both and no nearer ancestor-or-self of self is one of other; None iff they share none (never the root)", post)
+    c.ensures("no tree or list of the entry state is changed", lambda x: unchanged_lists(x))
+    lp = c.loop(1)
+    lp.invariant = lambda x: disjoint_upto(x, x.k)
+    lp.modifies = ()
